@@ -54,8 +54,25 @@ type StackCase struct {
 	Method     string   `json:"method"`
 	HandlerErr bool     `json:"handler_err,omitempty"` // untyped flavour: the handler returns an error, ServeError observes the request
 	// LateAuthz: the authorizer is registered after the Context was created and before the handler is built
-	LateAuthz bool  `json:"late_authz,omitempty"`
+	LateAuthz bool `json:"late_authz,omitempty"`
+	// TypeNamed: the description also defines schemes that are named like their type ("basic", "apiKey", "oauth2") and
+	// that no operation requires; the application registers an always-accepting authenticator for each. They decide
+	// nothing: a required scheme without authenticator of its own stays unsatisfiable. (r6)
+	TypeNamed bool  `json:"type_named,omitempty"`
 	Reqs      []Req `json:"reqs"`
+}
+
+var typeNamedDefs = []string{"basic", "apiKey", "oauth2"}
+
+// bystander is the authenticator of a definition the operation does not require.
+type bystander struct {
+	name string
+	obs  *observation
+}
+
+func (b *bystander) Authenticate(interface{}) (bool, interface{}, error) {
+	b.obs.bystanders = append(b.obs.bystanders, b.name)
+	return true, "bystander-" + b.name, nil
 }
 
 func (c StackCase) reg() map[string]bool {
@@ -82,6 +99,11 @@ func buildSpec(c StackCase) json.RawMessage {
 		default:
 			defs[s] = M{"type": "apiKey", "in": "header", "name": "X-Key-" + s}
 		}
+	}
+	if c.TypeNamed {
+		defs["basic"] = M{"type": "basic"}
+		defs["apiKey"] = M{"type": "apiKey", "in": "header", "name": "X-Key-bystander"}
+		defs["oauth2"] = M{"type": "oauth2", "flow": "implicit", "authorizationUrl": "https://example.invalid/auth", "scopes": M{}}
 	}
 	sec := []M{}
 	for _, a := range c.Alts {
@@ -152,6 +174,8 @@ type observation struct {
 	status    int
 	message   string
 	bodyBytes string
+	// bystanders: authenticators of definitions the operation does not require that were consulted
+	bystanders []string
 }
 
 var errHandlerDone = errors.New("c02: handler ran")
@@ -172,6 +196,11 @@ func (r *stackRig) registerCommon(api *untyped.API) {
 	for _, s := range SchemeNames {
 		if reg[s] { // an undefined scheme never reaches its authenticator; registering one for it would change nothing
 			api.RegisterAuth(s, &scripted{name: s, log: &r.obs.log, legal: legalScopes(r.c.Alts, s)})
+		}
+	}
+	if r.c.TypeNamed {
+		for _, n := range typeNamedDefs {
+			api.RegisterAuth(n, &bystander{name: n, obs: r.obs})
 		}
 	}
 	if !r.c.LateAuthz {
@@ -472,6 +501,9 @@ func checkServed(c StackCase, rig *stackRig, typed bool) *kit.Violation {
 		}
 		if len(ob.log.badParams)+len(ob.log.badScopes) > 0 {
 			return kit.Failf("%s: request %d %v: authenticator arguments: %v %v", c.describe(), i, q.Vec, ob.log.badParams, ob.log.badScopes)
+		}
+		if len(ob.bystanders) > 0 {
+			return kit.Failf("%s: request %d %+v: BYSTANDER-CONSULTED: the authenticators registered for the definitions %v, which the operation does not require, were consulted; observed %s", c.describe(), i, q, ob.bystanders, ob)
 		}
 		want := evalAnyOrder(c.Alts, reg, q.Vec)
 		var reasons []string
